@@ -77,19 +77,19 @@ func (t *TClient) wireUnits(stream []byte, d Delivery) [][]byte {
 
 // PipeResult is the observable trace of a pipelined run.
 type PipeResult struct {
-	Transport string   `json:"transport"`
-	History   []string `json:"history"`
-	Delivery  Delivery `json:"delivery"`
-	Observed  []string `json:"observed"`
-	End       string   `json:"end"`
-	Dials     []string `json:"dial_events"`
-	HostBytes int      `json:"host_bytes"`
-	HostHash  string   `json:"host_hash"`
-	Problems  []string `json:"problems,omitempty"`
-	Keys      []string `json:"-"`
-	Inconclusive string `json:"inconclusive,omitempty"`
-	Trace     []TLog   `json:"trace,omitempty"`
-	hostData  []byte
+	Transport    string   `json:"transport"`
+	History      []string `json:"history"`
+	Delivery     Delivery `json:"delivery"`
+	Observed     []string `json:"observed"`
+	End          string   `json:"end"`
+	Dials        []string `json:"dial_events"`
+	HostBytes    int      `json:"host_bytes"`
+	HostHash     string   `json:"host_hash"`
+	Problems     []string `json:"problems,omitempty"`
+	Keys         []string `json:"-"`
+	Inconclusive string   `json:"inconclusive,omitempty"`
+	Trace        []TLog   `json:"trace,omitempty"`
+	hostData     []byte
 }
 
 func (p *PipeResult) problem(key, f string, a ...any) {
